@@ -420,6 +420,19 @@ pub fn run(tier: &str) -> Result<Report, String> {
     }
     let prints = ["no-print", "summary", "with-progress", "exhaustive"];
     let mut cases: Vec<(Arc<Bound>, Case)> = vec![];
+    // networks with unusual variable names (like spare variables, like HCTL variables, prefixes, keywords)
+    for b in name_nets(0)? {
+        let (v0, v1) = (b.spec.vars[0].clone(), b.spec.vars[1].clone());
+        let l: Vec<String> = vec![format!("EF {v0}"), "!{x}: AG EF {x}".into(), format!("{v0} & ~{v1}"), format!("!{{x}}: AX ({{x}} | {v1})"), format!("3{{x}}: @{{x}}: ({v1} & AX {{x}})")];
+        for fmt in ["aeon", "bnet", "sbml"] {
+            if model_file(&b.bn, fmt).is_none() {
+                continue;
+            }
+            for (pi, print) in ["summary", "exhaustive"].iter().enumerate() {
+                cases.push((b.clone(), Case { fmt: fmt.into(), layout: pi, print: print.to_string(), with_out: true, formulas: l.clone(), ctx: None, ctx_k_delta: 0 }));
+            }
+        }
+    }
     for b in nets.iter().filter(|b| which.contains(&b.name.as_str())) {
         let fams = label_families(b, 4);
         let ctx_labels: Vec<(String, Vec<Mask>)> = vec![("p".into(), fams[0].1.wild[0].clone()), ("d".into(), fams[0].1.dom[0].clone()), ("dom_1".into(), fams[0].1.dom[1].clone()), ("unused".into(), fams[0].1.wild[1].clone()), ("zz/p".into(), fams[0].1.wild[1].clone()), ("0/d".into(), fams[0].1.wild[1].clone())];
@@ -503,7 +516,7 @@ pub fn run(tier: &str) -> Result<Report, String> {
     rep.set("failure_configurations", json!(failures));
     rep.sample(json!({"network": "con2", "format": "sbml", "layout": 6, "print": "exhaustive", "-o": true, "formulae": plain_lists[1]}));
     rep.sample(json!({"formula_file_layout_6": formula_file(&plain_lists[2], 6)}));
-    rep.rule = format!("the hctl-model-checker binary built from the working tree is executed on {which:?} x model format (aeon, bnet, sbml where the format reproduces the network) x {LAYOUTS} formula-file layouts (comments, blank lines, surrounding blanks/tabs, CRLF, no final newline, mixed) x 4 print options x with/without -o x 3 plain + 2 extended formula lists, plus 24 single-operator formula files (each unary / binary / hybrid operator and pattern in a file of its own) (context archive with labels p, d, dom_1 written for the k the tool derives), plus context archives written for k-1, k+1, k+2 and 18 failure configurations (5 of them formula files that cannot be read or parsed completely: the tool must report a problem or evaluate every formula, never a silent prefix). Compared: order and text of Formula blocks, printed result/colour/state counts vs exact counts of the library's sets, exhaustive state listing, archive entry list, formulae.txt, every archived BDD vs model_check_multiple_(extended_)formulae_dirty; failures must produce a message and no crash. distinct_nontrivial = executed configurations");
+    rep.rule = format!("the hctl-model-checker binary built from the working tree is executed on {which:?} x model format (aeon, bnet, sbml where the format reproduces the network) x {LAYOUTS} formula-file layouts (comments, blank lines, surrounding blanks/tabs, CRLF, no final newline, mixed) x 4 print options x with/without -o x 3 plain + 2 extended formula lists, plus four networks whose variable names are unusual as data (Ca_extra_cell / b_extra_1, x / xx, a / ab, EF1 / TRUE) with five formulae each, plus 24 single-operator formula files (each unary / binary / hybrid operator and pattern in a file of its own) (context archive with labels p, d, dom_1 written for the k the tool derives), plus context archives written for k-1, k+1, k+2 and 18 failure configurations (5 of them formula files that cannot be read or parsed completely: the tool must report a problem or evaluate every formula, never a silent prefix). Compared: order and text of Formula blocks, printed result/colour/state counts vs exact counts of the library's sets, exhaustive state listing, archive entry list, formulae.txt, every archived BDD vs model_check_multiple_(extended_)formulae_dirty; failures must produce a message and no crash. distinct_nontrivial = executed configurations");
     rep.assumptions.push("counts are compared with exact cardinalities computed from the point-wise read-back of the library's sets on valid colours".into());
     Ok(rep)
 }
